@@ -24,7 +24,7 @@ class Cgen:
     def __init__(s, m, cut_throw=True, instrument_stores=False, conv_check=True, nsw_checks=False):
         s.m = m; s.cut_throw = cut_throw; s.instr_stores = instrument_stores; s.conv_check = conv_check; s.nsw_checks = nsw_checks
         s.out = []; s.used_ext = {}; s.site = 0; s.fop_sites = []; s.aggs = {}; s.agg_defs = []
-        s.emitted = []; s.gused = set(); s.typed_alloca = True
+        s.emitted = []; s.gused = set(); s.typed_alloca = True; s.export_types = []
 
     # ------------------------------------------------------------ types
     def ctype(s, t):
@@ -527,7 +527,10 @@ class Cgen:
             todo += [x for x in s.gused - before]
         # order globals so that referenced ones come first (forward declare all as needed)
         out = ['/* generated by vfw/cgen.py from clang IR -- do not edit */']
-        out += s.agg_defs
+        exports = []
+        for tn in s.export_types:
+            if tn in m.types: exports.append('typedef %s VT_%s; enum { VT_SIZE_%s = %d };' % (s.ctype(NamedT(tn)), cname(tn), cname(tn), resolve(NamedT(tn), m).size(m)))
+        out += s.agg_defs + exports
         fw = []
         for g, txt in gl:
             mo = re.match(r'static (.*?) (G_\w+)(\[\d+\])?( = |;)', txt)
